@@ -378,7 +378,8 @@ impl MinCostFlowSolver {
         ]
         .into_iter()
         .max()
-        .unwrap();
+        .unwrap()
+        .max(1); // vehicles must cost something even if all cost coefficients are zero
 
         // spawning cost = costliest activity * (3 * planning days) * total_lower_bound.
         // This suffices, as the total non-spawning costs for the trivial schedule, where each vehicle do exactly one
